@@ -76,7 +76,10 @@ def check(run, prog, tier):
                         "(C02-A: every term of the iterate is linear or a state-independent source)"]
     run.rule("C08-I", "every calculation of the superoperator uses the dense step, dephasing, tensor and basis in force: no elemental step or other result kept from an earlier calculation", minimum=1)
     from . import memorule
-    memorule.check(run, prog, "C08-I", ['quantarhei.qm.liouvillespace.evolutionsuperoperator.EvolutionSuperOperator'],
+    # (and the Hamiltonian it is computed from hands out its matrices - also the rotating-frame one - in the basis and units
+    # in force at the call, not those of an earlier calculation)
+    memorule.check(run, prog, "C08-I", ['quantarhei.qm.liouvillespace.evolutionsuperoperator.EvolutionSuperOperator',
+                                        'quantarhei.qm.hilbertspace.hamiltonian.Hamiltonian'],
                    "U(t) then belongs to an earlier setting and no longer reproduces direct propagation")
     run.rule("C08-A", "identity start at every initialisation site (TA)", minimum=4)
     run.rule("C08-B", "first interval from propagated basis elements, set/reset paired", minimum=9)
